@@ -35,6 +35,8 @@ ALPHABET = [
     ["uni0041", None], ["uni0041.alt", None], ["uni0041.1", None], [LONG70, None],
     ["a-b", None], ["a-b", 0x1F600], ["u1F600", None], ["X", 0xFFFF], ["uniFFFF", None],
     ["Y", 0x10000], ["f_Y", None], ["space", 0x20], ["ab", None], ["uFFFF", None], ["f_X", None],
+    # the smallest code point: 0 is a value, not "no code point"
+    ["NULL", 0x0], ["NULL.alt", None],
 ]
 FIXED = [[".notdef", None], ["f", 0x66], ["i", 0x69], ["acutecomb", 0x301]]
 FIXED_NAMES = [n for n, _ in FIXED]
